@@ -427,8 +427,10 @@ func genC18(e *emitter, tier string, seed uint64) {
 				run("fqs:"+a+":"+b, c[0], c[1])
 			}
 		}
-		for _, a := range []string{"Fee", "Quote", "UpdateMinerFees"} {
-			for _, b := range []string{"AddQuote", "Fee", "UnmarshalJSON", "MarshalJSON"} {
+		// every container method (re-registering the miner included) against every quote method on the quote held from
+		// an earlier Quote(name)
+		for _, a := range fqsMethods {
+			for _, b := range fqMethods {
 				run("fqsq:"+a+":"+b, c[0], c[1])
 			}
 		}
